@@ -48,6 +48,8 @@ class PDict:
     # ---- core lookup
     def _find(self, k):
         for op, ek, v in reversed(self.log):
+            if op == "merge":
+                raise Unsupported("lookup in a dict after update() from a comprehension over symbolic content")
             if _keq(k, ek):
                 return v if op == "set" else _MISSING
         if self.base is not None:
@@ -55,7 +57,11 @@ class PDict:
             if zk is None:
                 return _MISSING
             if core.CUR.branch(self.base.has(zk)):
-                return self.base.get(k)
+                v = self.base.get(k)
+                if getattr(self.base, "materialize", False):
+                    # mutable values: later lookups of the same key must return the same object
+                    self.log.append(("set", k, v))
+                return v
         return _MISSING
 
     def __getitem__(self, k):
@@ -99,6 +105,10 @@ class PDict:
         return v
 
     def update(self, other=(), **kw):
+        if isinstance(other, CompDict):
+            # d.update({K(k, v): V(k, v) for k, v in src.items()}) with arbitrary src: recorded, interrogated by the contract
+            self.log.append(("merge", other, None))
+            return
         if isinstance(other, PDict):
             if other.base is not None or any(is_sym(e[1]) for e in other.log):
                 if self.log or self.base is not None:
@@ -309,12 +319,38 @@ class CompDict:
     def __init__(self, src, f):
         self.src, self.f = src, f
         self.log = []               # writes performed on the result afterwards: ("set", key, value)
+        # A comprehension is evaluated when it is executed: variables it reads may change afterwards (join_blocks adds to
+        # block1.size after building {block1.size + k: v ...}).  The body is therefore run NOW on a generic entry (k0, v0);
+        # entry(k) instantiates the result.  If the body needs a symbolic truth test (chained comparison, and/or) this
+        # is not possible without splitting the path on k0: the model then falls back to running the body at
+        # interrogation time, which is only faithful if the variables it reads are not modified in between (ints held
+        # in locals are immutable; this is the case for the comprehensions of edit_byte_interval and split_block).
+        self.eager = None
+        ctx = core.CUR
+        if ctx is not None and src.base is not None and not getattr(src.base, "materialize", False):
+            k0 = z3.Int(ctx.fresh_name("comp_k"))
+            v0 = src.base.get(mk_int(k0))
+            old = getattr(ctx, "no_branch", False)
+            ctx.no_branch = True
+            try:
+                key0, val0, cond0 = f((mk_int(k0), v0))
+                if isinstance(key0, (int, SymInt)) and isinstance(cond0, (bool, SymBool)) and val0 is v0:
+                    self.eager = (k0, zint(key0), cond0 if isinstance(cond0, bool) else cond0.term)
+            except core.NoBranch:
+                pass
+            finally:
+                ctx.no_branch = old
 
     def __setitem__(self, k, v):
         self.log.append(("set", k, v))
 
     def entry(self, k):
         v = self.src.base.get(k)
+        if self.eager is not None:
+            k0, key0, cond0 = self.eager
+            key = mk_int(z3.substitute(key0, (k0, zint(k))))
+            cond = cond0 if isinstance(cond0, bool) else mk_bool(z3.substitute(cond0, (k0, zint(k))))
+            return key, v, cond, v
         key, val, cond = self.f((k, v))
         return key, val, cond, v
 
